@@ -71,6 +71,14 @@ PROPS = {
         "trusted_base": TB_COMMON,
         "assumptions": ASSUME_COMMON,
     },
+    "C02": {
+        "rule": "pairs (a,b) through ==, !=, <, <=, >, >=, cmp, partial_cmp, max, min on values and ==/cmp on references: for every k<20, 1..4 limbs and every limb position the "
+                "32-bit limbs floor(2^64/10^k)-1,+0,+1 and 2^32-1 (value-equal partner x*10^k at scale+k, and a one-ulp neighbour); value-equal pairs with scale gaps 1..19 and "
+                "20..3000 (19/20/21, 589..608 switches); ULP neighbours; sign flips; zeros with any scale; operands straddling 2^64 and 2^128; one differing far digit; scale "
+                "differences above 2^63; sort() of 2..10 decimals with value-equal twins. Observable: all twelve answers exactly. Non-trivial = both operands non-zero.",
+        "trusted_base": TB_COMMON + ["f64 product LOG2_10*k in highest_bit_lessthan_scaled: scalar condition 2^pre(k) <= 10^k (PreOK)"],
+        "assumptions": ASSUME_COMMON + ["operands have fewer than 2^63 digits"],
+    },
 }
 
 
